@@ -918,6 +918,7 @@ def run(repo: Repo, ctx) -> None:
     _r12(repo, ctx)
     _r13(repo, ctx)
     last_state_rule(repo, ctx, 'C09.R14')
+    _r15(repo, ctx)
 
 
 def _isa(repo: Repo, q: str) -> Set[str]:
@@ -1368,3 +1369,47 @@ def last_state_rule(repo: Repo, ctx, rule: str) -> None:
                        sample=f'LAST_STATE = {v}; pickle.dumps({v})')
     if n < 4:
         raise AnalysisError(f'{rule}: only {n} LAST_STATE obligations')
+
+
+
+def _r15(repo: Repo, ctx) -> None:
+    """C09.R15 the aliases and settings that come with a request are applied
+    to the transaction state the statement is compiled in.  `compile_in_tx`
+    receives the server's transaction id; when it differs from the
+    compiler's (first statement after ROLLBACK TO SAVEPOINT) `sync_tx`
+    replaces the current state by the savepoint's snapshot.  An
+    `update_modaliases` / `update_session_config` made before that is
+    thrown away and the statement is compiled with the savepoint's aliases
+    instead of the ones the request carries."""
+    ctx.floor('C09.R15', 2)
+    comp = repo.cls('edb.server.compiler.compiler.Compiler')
+    f = repo.find_method(comp.qualname, 'compile_in_tx')
+    if f is None:
+        raise AnalysisError('C09.R15: Compiler.compile_in_tx not found')
+    ctx.saw(f)
+    g = CFG(f.node)
+    syncs = [x.id for x in g.nodes if any(
+        (call_name(c) or '').split('.')[-1] == 'sync_tx'
+        for c in g.node_calls(x))]
+    if not syncs:
+        raise AnalysisError('C09.R15: compile_in_tx does not call sync_tx')
+    n = 0
+    for x in g.nodes:
+        for c in g.node_calls(x):
+            nm = (call_name(c) or norm(c.func)).split('.')[-1]
+            if nm in ('update_modaliases', 'update_session_config'):
+                n += 1
+                ok = g.always_before(x.id, syncs)
+                ctx.ob('C09.R15', f'compile_in_tx:{nm}-after-sync', ok,
+                       f'compile_in_tx applies the request\'s '
+                       f'{nm[7:]} before sync_tx(txid): when the '
+                       f'compiler has to re-synchronise to a savepoint '
+                       f'(first statement after ROLLBACK TO SAVEPOINT) the '
+                       f'savepoint snapshot replaces the state just updated '
+                       f'and the statement is compiled with the '
+                       f'savepoint\'s {nm[7:]}, not the request\'s',
+                       f'{f.module.rel()}:{c.lineno}',
+                       sample=f'state.sync_tx(txid) ... {nm}(request..)')
+    if n < 2:
+        raise AnalysisError(f'C09.R15: only {n} request-state updates found '
+                            f'in compile_in_tx')
